@@ -54,7 +54,7 @@ def cases(tier, seed):
             d = dict(mesh)
             d.update(geos[(mi + li) % len(geos)])
             d.update({"fields": ["temp", "density", "Z"], "layout": lay, "seed": seed,
-                      "payload": "hostile" if li % 3 == 1 else "coded"})
+                      "payload": "hostile" if li % 3 == 1 else (["coded", "signed", "zerofine"] if li % 3 == 2 else "coded")})
             out.append({"desc": d, "w": nlev * (1 + max(len(l["files"]) if l else 1 for l in lay))})
     return out
 
